@@ -52,6 +52,17 @@ def make(prop, tier):
 
 
 def plan(tier, seed):
-    return dict(units=make(13, tier), rule=RULE13, assumptions=[
-        'out-of-bounds writes are detected by pattern-filled guard zones around the buffer (and, in the thorough tier, by the ASan libFuzzer target); out-of-bounds reads only by the fuzz target',
+    import verif
+    quick = tier == 'quick'
+    units = make(13, tier)
+    # libFuzzer + ASan target over a slice of the same sites with exact-size heap buffers (reads and wild writes)
+    regs = [r for u in units if u.cfg == 'gxx' for r in u.regs]
+    fz = [r for r in regs if '"int|' in r or 'wrapper|' in r][:14] + [r for r in regs if 'scaled' in r][::3][:18]
+    fuzz_unit = Unit('C13-fuzz', 'fuzz', 'props/C13.h', fz, chunk=4, tick_limit=100000)
+    units.append(fuzz_unit)
+
+    def extra(ctx):
+        return [verif.run_fuzz(fuzz_unit, ctx, runs=120000 if quick else 4000000, workers=4 if quick else 16, max_len=130)]
+    return dict(units=units, rule=RULE13, extra=extra, assumptions=[
+        'out-of-bounds writes are detected by pattern-filled guard zones around the buffer; the libFuzzer target uses exact-size heap buffers under ASan, which also sees out-of-bounds reads',
         'an unbounded loop is "more than 1e5 iterations of the instrumented descale loops"'])
